@@ -174,6 +174,10 @@ func (v *Vector[T]) ReadFrom(r io.Reader) (n int64, err error) {
 
 		n += inc
 
+		if size < 0 {
+			return n, fmt.Errorf("invalid vector size: %d", size)
+		}
+
 		if cap(*v) < size {
 			*v = make([]T, size)
 		}
